@@ -221,6 +221,7 @@ ReqOf(ev) ==
      [] ev.op = "Pem" -> (IF ev.out = "Ok" THEN ReqPem(ev.args, ev.obs) ELSE {<<"C14.pem_produced", FALSE>>})
      [] ev.op \in {"KeyLoad", "AlgTable"} -> ReqKeyEv(ev)
      [] ev.op = "KeyGen" -> ReqKeyGen(ev.be, ev.args, ev.out, ev.obs)
+     [] ev.op = "KeyWrapped" -> ReqKeyWrapped(ev.be, ev.args, ev.out, ev.obs)
      [] ev.op \in {"StringRuns", "StringBlock", "StringViews", "StringBytes", "StringMulti", "StringPlace"} -> ReqStringEv(ev)
      [] ev.op \in {"DnPush", "DnRemove", "DnEq", "DnEncode"} -> ReqDnEv(ev)
      [] OTHER -> {})
